@@ -120,4 +120,27 @@ Section Open.
         | Crash => OpenCrash                                                   (* any other exception propagates *)
         end
     end.
+
+  (* ---- opening with a byte limit: MixedLogReader(path, max_bytes=n) ---------------------------------------
+     fast_generate_index(max_bytes=n): when n < file size, only the blocks that start below n are searched and
+     save_index is switched off (a partial index must never reach the disk); an existing index is still loaded
+     and validated as usual (and deleted when stale).  The reader stops at the first message that does not end
+     at or before n.  With n >= file size the limit has no effect. *)
+  Fixpoint take_within (n : nat) (fs : list (nat * list N)) : list (nat * list N) :=
+    match fs with
+    | [] => []
+    | (o, bs) :: rest => if Nat.leb (o + length bs) n then (o, bs) :: take_within n rest else []
+    end.
+
+  Definition open_log_max (p1i : option (list N)) (d : list N) (ignore_index : bool) (n : nat) : openres :=
+    if Nat.leb (length d) n then open_log p1i d ignore_index else
+    match (if ignore_index then None else p1i) with
+    | None => Opened (mkO (take_within n (read_all d (index_offsets (fresh p1 d)))) p1i)
+    | Some idx =>
+        match loader idx d with
+        | Accepted i => Opened (mkO (take_within n (read_all d (index_offsets i))) p1i)
+        | Rebuild del => Opened (mkO (take_within n (read_all d (index_offsets (fresh p1 d)))) (if del then None else p1i))
+        | Crash => OpenCrash
+        end
+    end.
 End Open.
